@@ -93,6 +93,7 @@ class Explorer:
         self._decided = {}
         self._decided_keep = []
         self._concretized = {}
+        self._int_forks = 0
         self.defs = {}                # id of constraint term -> defined fresh variable (definitional extensions)
         self.groups = {}              # id of assumption term -> group key (assumptions only relevant to one obligation group)
         self.model = None
